@@ -657,6 +657,11 @@ def evaluate(case, fresh=False):
         msg = str(e)
         tname = type(e).__name__
         documented = isinstance(e, pe.SchemaDefinitionError) or (isinstance(e, TypeError) and "unsupported" in msg)
+        if isinstance(e, AssertionError) and _raised_inside_hypothesis(e):
+            # Hypothesis' own way of failing when a unique collection cannot be filled from an element strategy that is
+            # (nearly) unsatisfiable - e.g. a schema that only nulls satisfy: an inelegant "gave up", no data was emitted
+            documented = True
+            ev.labels.append("incomplete:hypothesis-internal-assertion")
         ev.labels.append("crash:" + tname)
         if status == "sat" and not documented:
             add(f"strategy-crash:{tname}", {"phase": res["phase"], "where": _where(e), "msg": msg[:300]})
@@ -771,6 +776,15 @@ def _segments(case):
 ROLE_CLASS = {"series": ("SeriesSchema",), "column": ("Column",), "index": ("Index",), "level": ("Index", "MultiIndex")}
 
 
+def _raised_inside_hypothesis(e):
+    tb = e.__traceback__
+    last = None
+    while tb is not None:
+        last = tb.tb_frame.f_code.co_filename
+        tb = tb.tb_next
+    return bool(last) and "/hypothesis/" in last.replace("\\", "/")
+
+
 def _fails(disc):
     d = disc.detail if isinstance(disc.detail, dict) else {}
     return d.get("failed") or []
@@ -826,7 +840,8 @@ def _k_eq(family, case, disc):
             if c["c"] != "eq":
                 continue
             if all(fl.get("schema") == "Column" and fl.get("field") in cols and cols[fl["field"]].get("checks")
-                   and all(_same(v, sp.conc(cols[fl["field"]]["dtype"], c["v"])) for v in fl.get("cases", []))
+                   and all(_same(v, sp.conc(cols[fl["field"]]["dtype"], c["v"])) or _same(v, c["v"])
+                           for v in fl.get("cases", []))
                    for fl in fails):
                 return True
     # the dataframe-level chain itself: failures are reported on the DataFrameSchema
@@ -1004,6 +1019,15 @@ def _k_index_vec(family, case, disc):
         return role in ("index", "level") and any(c["c"] == "vec_ge" for _, c in segs[0])
 
     return _all_fails(case, disc, "draw-rejected:DATAFRAME_CHECK:c13_vec_ge", fn)
+
+
+@known.finding("C13/multiindex-unique-str-level-nul-truncation")
+def _k_mi_nul(family, case, disc):
+    def fn(role, f, segs, fl):
+        return (role == "level" and f.get("unique") and sp.cls_of(f["dtype"]) == "str"
+                and any("\x00" in str(v) for v in fl.get("cases", [])))
+
+    return _all_fails(case, disc, "draw-rejected:SERIES_CONTAINS_DUPLICATES", fn)
 
 
 @known.finding("C13/null-mask-crashes-on-empty-index")
